@@ -176,6 +176,17 @@ PROPS = {
         text="Every split point of the listed documents is enumerated (complete for those documents), plus buffer-boundary schedules on large CRLF documents and random schedules over valid and invalid documents of all six readers.",
         note="Trusted: the schedule reader (30 lines) and the canonical dumper.",
         design="5/C17", exhaustive_note=True),
+    "C18": P(
+        "TestC18", "fault_enumeration",
+        "read faults: case = (format, document the reader accepts, fault offset k, read granularity); the stream delivers bytes [0,k) then fails with a non-EOF error (again after every rewind); enumerated for every k in 0..len (TTML: up to the end of the root element) of the repository's test inputs and of documents rendered from the C01-C06 models, all-at-once and (every 5th k) byte-by-byte. "
+        "write faults: case = (cue list obtained by reading a document, writer, fault offset k); the Write call crossing k fails with a partial count; enumerated for every k of the clean output plus one beyond (no fault: same bytes, nil). long lines: one line of 2^16, 2^16+1, 70000, 2^17, 2^18 (thorough: 2^19, 2^20) bytes in SRT/WebVTT/SSA/TTML: error, or all 3 cues. files: OpenFile of a missing file and Write into a missing directory for every extension. random: offsets / writers / granularities on fresh generated documents. "
+        "Oracle: a non-nil error in every faulted run. Every faulted run is non-trivial; distinct = hash of (document, k, granularity / writer).",
+        ["faults are injected only into documents the reader accepts without fault, so a nil error can only mean the fault was swallowed",
+         "for TTML, offsets after the end of the root element are out of scope (the decoder legitimately stops reading there)"],
+        shards=(6, 16), technique="fault injection with exhaustive enumeration of the fault offset: harness-controlled failing io.Reader / io.Writer, oracle = returned error must be non-nil; fault-free runs must hand over the complete output",
+        text="For each listed document every byte offset is tried as the point of failure for all six readers, and for each (cue list, writer) pair every offset of the output for all five writers: complete for those documents; plus over-long lines and missing / uncreatable files.",
+        note="Trusted: the failing reader / writer wrappers (40 lines).",
+        design="5/C18", exhaustive_note=True),
 }
 
 # Properties deliberately not claimed (reason each); anything else missing from PROPS is work in progress.
